@@ -355,3 +355,182 @@ B('d3_b_delegate_returns_nothing', ['C09'], 'R09.b',
   (A, _DEFAULT_RENDER_FULL, "    return _adapt_to_accept(request, _error, MIME_SUPPORT_MAP)\n"))
 B('d3_b_delegate_call_conditional', ['C09'], 'R09.b', (E, _AFTER_DEFAULT_MIME, _AFTER_DEFAULT_MIME + _SHARED_ADAPT), (A, _IMPORT_OLD, _IMPORT_NEW),
   (A, _DEFAULT_RENDER_FULL, "    if kwargs:\n        _adapt_to_accept(request, _error, MIME_SUPPORT_MAP)\n    return _error\n"))
+
+# ------------------------------------------------------------------ fourth pass: a serialiser inherited from a mixin, registration driven by an argument
+# the to_html / to_xml a class of the family *resolves to* is analysed (also when it lives in a mixin outside the family,
+# the template name being a class attribute read per inheriting class); the (name, source) table of the registering function
+# may be the argument of its module-level call
+_CISE_HEAD = "class ContextualInternalServerError(InternalServerError):\n"
+_CNF_HEAD = "class ContextualNotFound(NotFound):\n"
+_TOHTML_500 = "    def to_html(self, *a, **kw):\n        render_ctx = self.to_dict()\n        return CONTEXTUAL_ENV.render('500.html', render_ctx)\n"
+_TOHTML_404 = "    def to_html(self, *a, **kw):\n        render_ctx = self.to_dict()\n        return CONTEXTUAL_ENV.render('404.html', render_ctx)\n"
+_PAGE_MIXIN = ("class _DebugPage(object):\n    _page = None\n\n    def to_html(self, *a, **kw):\n        render_ctx = self.to_dict()\n"
+               "        return CONTEXTUAL_ENV.render(self._page, render_ctx)\n\n\n")
+_CISE_MIXED = "class ContextualInternalServerError(_DebugPage, InternalServerError):\n"
+_CNF_MIXED = "class ContextualNotFound(_DebugPage, NotFound):\n"
+_REG_DEF = "def _register_templates():\n" + _REGISTER
+_REG_DEF_ARG = ("def _register_templates(named_pages):\n    for page_name, page_source in named_pages:\n"
+                "        CONTEXTUAL_ENV.register_source(page_name, page_source)\n")
+_REG_CALL = "\n_register_templates()\n"
+_REG_CALL_ARG = "\n_register_templates([('500.html', HTML_500_TMPL),\n                     ('404.html', HTML_404_TMPL)])\n"
+_MIXIN_EDITS = ((E, _CISE_HEAD, _PAGE_MIXIN + _CISE_MIXED), (E, _CNF_HEAD, _CNF_MIXED),
+                (E, _TOHTML_500, "    _page = '500.html'\n"), (E, _TOHTML_404, "    _page = '404.html'\n"))
+T('d4_t_debug_page_mixin', ['C09', 'C08'], *_MIXIN_EDITS)
+T('d4_t_register_table_argument', ['C09'], (CE, _REG_DEF, _REG_DEF_ARG), (CE, _REG_CALL, _REG_CALL_ARG))
+T('d4_t_register_pair_arguments', ['C09'],
+  (CE, _REG_DEF, "def _register_page(page_name, page_source):\n    CONTEXTUAL_ENV.register_source(page_name, page_source)\n"),
+  (CE, _REG_CALL, "\n_register_page('500.html', HTML_500_TMPL)\n_register_page('404.html', page_source=HTML_404_TMPL)\n"))
+T('d4_t_mixin_and_table_argument', ['C09'], *(_MIXIN_EDITS + ((CE, _REG_DEF, _REG_DEF_ARG), (CE, _REG_CALL, _REG_CALL_ARG))))
+B('d4_b_mixin_page_not_registered', ['C09'], 'R09.d',
+  *(_MIXIN_EDITS[:3] + ((E, _TOHTML_404, "    _page = '404_debug.html'\n"),)))
+B('d4_b_mixin_interpolates_raw_fields', ['C09'], 'R09.c',
+  (E, _CISE_HEAD, _PAGE_MIXIN.replace("        return CONTEXTUAL_ENV.render(self._page, render_ctx)\n",
+                                      "        return '<h1>%s</h1><p>%s</p>' % (render_ctx['message'], render_ctx['detail'])\n") + _CISE_MIXED),
+  *_MIXIN_EDITS[1:])
+B('d4_b_mixin_xml_raw_detail', ['C09'], 'R09.c',
+  (E, _CISE_HEAD, _PAGE_MIXIN + "class _RawXML(object):\n    def to_xml(self):\n        return '<http_error><detail>{0}</detail></http_error>'.format(self.detail)\n\n\n"
+      "class ContextualInternalServerError(_RawXML, _DebugPage, InternalServerError):\n"), *_MIXIN_EDITS[1:])
+B('d4_b_table_argument_misses_404', ['C09'], 'R09.d', (CE, _REG_DEF, _REG_DEF_ARG),
+  (CE, _REG_CALL, "\n_register_templates([('500.html', HTML_500_TMPL)])\n"))
+B('d4_b_table_argument_raw_filter_row', ['C09'], 'R09.d', (CE, _REG_DEF, _REG_DEF_ARG),
+  (CE, _REG_CALL, "\n_register_templates([('500.html', HTML_500_TMPL),\n"
+                  "                     ('404.html', HTML_404_TMPL.replace('<td>{request.path}</td>', '<td>{request.path|s}</td>'))])\n"))
+B('d4_b_pair_arguments_crossed_name', ['C09'], 'R09.d',
+  (CE, _REG_DEF, "def _register_page(page_name, page_source):\n    CONTEXTUAL_ENV.register_source(page_name, page_source)\n"),
+  (CE, _REG_CALL, "\n_register_page('500.html', HTML_500_TMPL)\n_register_page('500.html', HTML_404_TMPL)\n"))
+
+# ------------------------------------------------------------------ fifth pass: clauses that were not decided yet
+# R09.b: what the negotiation answers when nothing is acceptable; the charset of the header is the body's; the format table is
+# never modified at run time; an adapt() / render_error() of a subclass is held to the same rules.  R09.c: a to_escaped_dict() of a
+# subclass.  R09.a: the handler's error-type slots carry the status of their situation; constructors of error types hand what they
+# are given (code / message / detail / error_type ...) on to the next constructor
+_RENDER_BM = "        best_match = request.accept_mimetypes.best_match(MIME_SUPPORT_MAP)\n        _error.adapt(best_match)\n        return _error\n"
+_ISE_TO_DICT_DEF = "    def to_dict(self):\n        ret = super(InternalServerError, self).to_dict()\n"
+_CEH_SLOT = "    not_found_type = ContextualNotFound\n"
+_NF_SUPER = "        super(NotFound, self).__init__(*args, **kwargs)\n"
+_ISE_SUPER = "        super(InternalServerError, self).__init__(detail, **kwargs)\n"
+_ISE_POP = "        self.exc_info = kwargs.pop('exc_info', None)\n"
+_MNA_SUPER = "        super(MethodNotAllowed, self).__init__(*args, **kwargs)\n"
+_CNF_SUPER = "        super(ContextualNotFound, self).__init__(*a, **kw)\n"
+
+T('d5_t_negotiation_default_plain_text', ['C09'], (E, _RENDER_BM, _RENDER_BM.replace("best_match(MIME_SUPPORT_MAP)", "best_match(MIME_SUPPORT_MAP, default=DEFAULT_MIME)")))
+T('d5_t_negotiation_default_none', ['C09'], (A, "best_match(MIME_SUPPORT_MAP)", "best_match(MIME_SUPPORT_MAP, None)"))
+T('d5_t_header_charset_keyword', ['C09'], (E, _ADAPT_HEADER, "        self.headers['Content-Type'] = get_content_type(mimetype=mimetype, charset=self.charset)\n"))
+T('d5_t_adapt_override_defers', ['C09'],
+  (E, _ISE_TO_DICT_DEF, "    def adapt(self, mimetype=None):\n        super(InternalServerError, self).adapt(mimetype)\n\n" + _ISE_TO_DICT_DEF))
+T('d5_t_subclass_init_python3_super', ['C09'], (E, _NF_SUPER, "        super().__init__(*args, **kwargs)\n"),
+  (E, _ISE_SUPER, "        super().__init__(detail=detail, **kwargs)\n"))
+T('d5_t_subclass_init_base_named', ['C09'], (E, _MNA_SUPER, "        BadRequest.__init__(self, *args, **kwargs)\n"))
+T('d5_t_handler_slots_of_subclass_handler', ['C09'],
+  (E, "class _REPLDebuggedApplication(DebuggedApplication):", "class QuietErrorHandler(ErrorHandler):\n    not_found_type = Gone\n    not_found_type = NotFound\n    server_error_type = ContextualInternalServerError\n\n\n"
+      "class _REPLDebuggedApplication(DebuggedApplication):"))
+T('d5_t_render_error_override_negotiates', ['C09'],
+  (E, _CEH_SLOT, _CEH_SLOT + "\n    def render_error(self, request, _error):\n        wanted = request.accept_mimetypes.best_match(list(MIME_SUPPORT_MAP))\n"
+                            "        _error.adapt(wanted)\n        return _error\n"))
+
+B('d5_b_negotiation_default_html', ['C09'], 'R09.b', (E, _RENDER_BM, _RENDER_BM.replace("best_match(MIME_SUPPORT_MAP)", "best_match(MIME_SUPPORT_MAP, default='text/html')")))
+B('d5_b_negotiation_default_html_positional', ['C09'], 'R09.b', (A, "best_match(MIME_SUPPORT_MAP)", "best_match(MIME_SUPPORT_MAP, 'text/html')"))
+B('d5_b_negotiation_default_unknown_type', ['C09'], 'R09.b', (A, "best_match(MIME_SUPPORT_MAP)", "best_match(MIME_SUPPORT_MAP, default='text/*')"))
+B('d5_b_header_charset_literal', ['C09'], 'R09.b', (E, _ADAPT_HEADER, "        self.headers['Content-Type'] = get_content_type(mimetype, 'latin-1')\n"))
+B('d5_b_header_charset_of_class', ['C09'], 'R09.b', (E, _ADAPT_HEADER, "        self.headers['Content-Type'] = get_content_type(mimetype, charset=BaseResponse.charset)\n"))
+B('d5_b_table_caches_unknown_types', ['C09'], 'R09.b',
+  (E, _ADAPT_LOOKUP, "        try:\n            fmt_name = MIME_SUPPORT_MAP[mimetype]\n        except KeyError:\n"
+                     "            MIME_SUPPORT_MAP[mimetype] = 'text'\n            fmt_name, mimetype = 'text', 'text/plain'\n"))
+B('d5_b_table_setdefault_lookup', ['C09'], 'R09.b',
+  (E, _ADAPT_LOOKUP, "        fmt_name = MIME_SUPPORT_MAP.setdefault(mimetype, 'text')\n        if fmt_name == 'text':\n            mimetype = 'text/plain'\n"))
+B('d5_b_table_pruned_by_application', ['C09'], 'R09.b',
+  (A, "    best_match = request.accept_mimetypes.best_match(MIME_SUPPORT_MAP)\n", "    MIME_SUPPORT_MAP.pop('application/xml', None)\n    best_match = request.accept_mimetypes.best_match(MIME_SUPPORT_MAP)\n"))
+B('d5_b_adapt_override_body_only', ['C09'], 'R09.b',
+  (E, _ISE_TO_DICT_DEF, "    def adapt(self, mimetype=None):\n        self.data = self.to_html()\n\n" + _ISE_TO_DICT_DEF))
+B('d5_b_adapt_override_defers_with_fixed_type', ['C09'], 'R09.b',
+  (E, _ISE_TO_DICT_DEF, "    def adapt(self, mimetype=None):\n        super(InternalServerError, self).adapt('text/html')\n\n" + _ISE_TO_DICT_DEF))
+B('d5_b_adapt_override_own_pairing_wrong', ['C09'], 'R09.b',
+  (E, _ISE_TO_DICT_DEF, "    def adapt(self, mimetype=None):\n        try:\n            fmt_name = MIME_SUPPORT_MAP[mimetype]\n        except KeyError:\n"
+                        "            fmt_name = 'text'\n        self.data = getattr(self, 'to_' + fmt_name)()\n"
+                        "        self.headers['Content-Type'] = get_content_type(mimetype, self.charset)\n\n" + _ISE_TO_DICT_DEF))
+B('d5_b_render_error_override_fixed_format', ['C09'], 'R09.b',
+  (E, _CEH_SLOT, _CEH_SLOT + "\n    def render_error(self, request, _error):\n        _error.adapt('text/html')\n        return _error\n"))
+B('d5_b_render_error_override_skips_adapt', ['C09'], 'R09.b',
+  (E, _CEH_SLOT, _CEH_SLOT + "\n    def render_error(self, request, _error):\n        if request.accept_mimetypes:\n"
+                            "            _error.adapt(request.accept_mimetypes.best_match(MIME_SUPPORT_MAP))\n        return _error\n"))
+B('d5_b_escaped_dict_override_raw', ['C09'], 'R09.c',
+  (E, _ISE_TO_DICT_DEF, "    def to_escaped_dict(self):\n        return dict((k, str(v)) for k, v in self.to_dict().items())\n\n" + _ISE_TO_DICT_DEF))
+B('d5_b_escaped_dict_override_skips_exc_info', ['C09'], 'R09.c',
+  (E, _ISE_TO_DICT_DEF, "    def to_escaped_dict(self):\n        ret = super(InternalServerError, self).to_escaped_dict()\n        ret['exc_info'] = repr(self.exc_info)\n"
+                        "        return ret\n\n" + _ISE_TO_DICT_DEF))
+B('d5_b_debug_handler_404_slot_is_500', ['C09'], 'R09.a', (E, _CEH_SLOT, "    not_found_type = ContextualInternalServerError\n"))
+B('d5_b_handler_404_slot_is_bad_request', ['C09'], 'R09.a', (E, "    # 404\n    not_found_type = NotFound\n", "    # 404\n    not_found_type = BadRequest\n"))
+B('d5_b_handler_500_slot_is_bad_gateway', ['C09'], 'R09.a', (E, "    server_error_type = InternalServerError\n", "    server_error_type = BadGateway\n"))
+B('d5_b_handler_slot_not_an_error_type', ['C09'], 'R09.a', (E, "    method_not_allowed_type = MethodNotAllowed\n", "    method_not_allowed_type = ErrorHandler\n"))
+B('d5_b_not_found_init_drops_kwargs', ['C09'], 'R09.a', (E, _NF_SUPER, "        super(NotFound, self).__init__(*args)\n"))
+B('d5_b_server_error_init_drops_kwargs', ['C09'], 'R09.a', (E, _ISE_SUPER, "        super(InternalServerError, self).__init__(detail)\n"))
+B('d5_b_server_error_init_takes_the_code', ['C09'], 'R09.a', (E, _ISE_POP, _ISE_POP + "        kwargs.pop('code', None)\n"))
+B('d5_b_server_error_init_drops_detail', ['C09'], 'R09.a', (E, _ISE_SUPER, "        super(InternalServerError, self).__init__(**kwargs)\n"))
+B('d5_b_method_not_allowed_init_fixed_message', ['C09'], 'R09.a', (E, _MNA_SUPER, "        super(MethodNotAllowed, self).__init__(*args, message=self.message, **kwargs)\n"))
+B('d5_b_method_not_allowed_init_drops_args', ['C09'], 'R09.a', (E, _MNA_SUPER, "        super(MethodNotAllowed, self).__init__(**kwargs)\n"))
+B('d5_b_debug_not_found_init_conditional_super', ['C09'], 'R09.a',
+  (E, _CNF_SUPER, "        if self.request is not None:\n            super(ContextualNotFound, self).__init__(*a, **kw)\n"))
+B('d5_b_debug_not_found_init_overwrites_code', ['C09'], 'R09.a', (E, _CNF_SUPER, "        kw['code'] = 404\n" + _CNF_SUPER))
+T('d5_t_escaped_dict_override_extends', ['C09', 'C08'],
+  (E, _ISE_TO_DICT_DEF, "    def to_escaped_dict(self):\n        ret = super(InternalServerError, self).to_escaped_dict()\n"
+                        "        ret['exc_summary'] = html_escape(repr(self.exc_info), True)\n        return ret\n\n" + _ISE_TO_DICT_DEF))
+
+# ------------------------------------------------------------------ sixth pass: what answers an uncaught exception, class-level defaults, attribute position
+_UNCAUGHT_BASE = "        return eh.server_error_type(repr(exc_info),\n"
+_UNCAUGHT_CTX = "        SEType = eh.server_error_type\n"
+_HREF = "'<a target=\"_blank\" href=\"{error_type}\">'"
+_MNA_DETAIL = "            self.detail = '%s Allowed methods: %r' % (self.detail,\n                                                      method_list)\n"
+T('d6_t_uncaught_helper_with_extra_kwargs', ['C09', 'C08'],
+  (E, "        eh = _application.error_handler\n        exc_info = eh.exc_info_type.from_current()\n        return eh.server_error_type(repr(exc_info),\n"
+      "                                    exc_info=exc_info,\n                                    source_route=_route)\n",
+      "        return self._wrap_current(_application, _route)\n\n    @staticmethod\n    def _wrap_current(_application, _route, **extra):\n"
+      "        eh = _application.error_handler\n        exc_info = eh.exc_info_type.from_current()\n        error_type = eh.server_error_type\n"
+      "        return error_type(repr(exc_info), exc_info=exc_info, source_route=_route, **extra)\n"))
+T('d6_t_href_single_quoted', ['C09', 'C08'], (E, _HREF, "'<a target=\"_blank\" href=\\'{error_type}\\'>'"))
+T('d6_t_mna_detail_named_first', ['C09'],
+  (E, _MNA_DETAIL, "            with_methods = '%s Allowed methods: %r' % (self.detail, method_list)\n            self.detail = with_methods\n"))
+B('d6_b_uncaught_answers_with_404_slot', ['C09'], 'R09.a', (E, _UNCAUGHT_BASE, "        return eh.not_found_type(repr(exc_info),\n"))
+B('d6_b_debug_uncaught_fixed_class', ['C09'], 'R09.a', (E, _UNCAUGHT_CTX, "        SEType = ContextualNotFound\n"))
+B('d6_b_uncaught_helper_returns_nothing', ['C09'], 'R09.a',
+  (E, "        return eh.server_error_type(repr(exc_info),\n                                    exc_info=exc_info,\n                                    source_route=_route)\n",
+      "        response = eh.server_error_type(repr(exc_info),\n                                        exc_info=exc_info,\n                                        source_route=_route)\n"))
+B('d6_b_href_unquoted', ['C09'], 'R09.c', (E, _HREF, "'<a target=\"_blank\" href={error_type}>'"))
+B('d6_b_xml_attribute_unquoted', ['C09'], 'R09.c',
+  (E, "               '<error_type>{error_type}</error_type>'\n", "               '<error_type href={error_type}>{error_type}</error_type>'\n"))
+B('d6_b_generated_xml_attribute_unquoted', ['C09'], 'R09.c', (E, _AFTER_DEFAULT_MIME, _AFTER_DEFAULT_MIME + _XML_FIELDS_CONST),
+  (E, _XML_BODY, _XML_GENERATED.replace("'<{0}>{{{0}}}</{0}>'.format(name)", "'<field name={{{0}}}>{{{0}}}</field>'.format(name)")))
+B('d6_b_allowed_methods_detail_on_the_class', ['C09'], 'R09.a', (E, _MNA_DETAIL, _MNA_DETAIL.replace("            self.detail = ", "            type(self).detail = ")))
+B('d6_b_given_code_stored_on_the_class', ['C09'], 'R09.a', (E, _INIT_CODE, "        self.code = self.__class__.code = kwargs.pop('code', self.code)\n"))
+B('d6_b_message_default_patched_on_the_class', ['C09'], 'R09.a', (E, _INIT_MESSAGE, _INIT_MESSAGE + "        HTTPException.message = self.message\n"))
+B('d6_b_xml_closing_tag_typo', ['C09'], 'R09.c', (E, "               '<detail>{detail}</detail>'\n", "               '<detail>{detail}<detail>'\n"))
+B('d6_b_xml_root_not_closed', ['C09'], 'R09.c', (E, "               '</http_error>').format(**params)\n", "               '<http_error>').format(**params)\n"))
+B('d6_b_xml_module_template_two_roots', ['C09'], 'R09.c', (E, _AFTER_DEFAULT_MIME, _AFTER_DEFAULT_MIME + _XML_CONST.replace("              '</http_error>')\n", "              '</http_error><debug/>')\n")),
+  (E, _XML_BODY, "        return _XML_SHAPE.format(**self.to_escaped_dict())\n"))
+B('d6_b_xml_generated_elements_unclosed', ['C09'], 'R09.c', (E, _AFTER_DEFAULT_MIME, _AFTER_DEFAULT_MIME + _XML_FIELDS_CONST),
+  (E, _XML_BODY, _XML_GENERATED.replace("'<{0}>{{{0}}}</{0}>'.format(name)", "'<{0}>{{{0}}}<{0}/>'.format(name)")))
+T('d6_t_server_error_init_pops_detail_and_hands_it_on', ['C09'],
+  (E, "    def __init__(self, detail=None, **kwargs):\n        self.exc_info = kwargs.pop('exc_info', None)\n        super(InternalServerError, self).__init__(detail, **kwargs)\n",
+      "    def __init__(self, *args, **kwargs):\n        self.exc_info = kwargs.pop('exc_info', None)\n        message = kwargs.pop('message', self.message)\n"
+      "        super(InternalServerError, self).__init__(*args, message=message, **kwargs)\n"))
+B('d6_b_server_error_init_pops_message_and_keeps_it', ['C09'], 'R09.a',
+  (E, "    def __init__(self, detail=None, **kwargs):\n        self.exc_info = kwargs.pop('exc_info', None)\n        super(InternalServerError, self).__init__(detail, **kwargs)\n",
+      "    def __init__(self, *args, **kwargs):\n        self.exc_info = kwargs.pop('exc_info', None)\n        message = kwargs.pop('message', self.message)\n"
+      "        super(InternalServerError, self).__init__(*args, **kwargs)\n"))
+
+# ------------------------------------------------------------------ seventh pass: a constructor does not overwrite what the next one stored
+_ISE_GUARD = "        if self.error_type is None:\n            try:\n                exc_type_name = self.exc_info.exc_type\n                exc_type = getattr(exceptions, exc_type_name)\n"
+_ISE_TAIL = "                self.error_type = STDLIB_EXC_URL + exc_type.__name__\n            except Exception:\n                pass\n"
+T('d7_t_error_type_filled_when_falsy', ['C09'], (E, "        if self.error_type is None:\n            try:\n", "        if not self.error_type:\n            try:\n"))
+T('d7_t_error_type_early_return_when_given', ['C09'],
+  (E, _ISE_GUARD + _ISE_TAIL, "        if self.error_type is not None:\n            return\n        try:\n            exc_type_name = self.exc_info.exc_type\n"
+                              "            exc_type = getattr(exceptions, exc_type_name)\n            self.error_type = STDLIB_EXC_URL + exc_type.__name__\n"
+                              "        except Exception:\n            pass\n"))
+B('d7_b_error_type_always_derived', ['C09'], 'R09.a',
+  (E, _ISE_GUARD + _ISE_TAIL, "        try:\n            exc_type_name = self.exc_info.exc_type\n            exc_type = getattr(exceptions, exc_type_name)\n"
+                              "            self.error_type = STDLIB_EXC_URL + exc_type.__name__\n        except Exception:\n            pass\n"))
+B('d7_b_error_type_guard_inverted', ['C09'], 'R09.a', (E, "        if self.error_type is None:\n            try:\n", "        if self.error_type is not None:\n            try:\n"))
+B('d7_b_server_error_forces_its_code', ['C09'], 'R09.a', (E, _ISE_SUPER, _ISE_SUPER + "        self.code = type(self).code\n"))
+B('d7_b_debug_not_found_resets_message', ['C09'], 'R09.a', (E, _CNF_SUPER, _CNF_SUPER + "        self.message = 'Not found'\n"))
+B('d7_b_method_not_allowed_detail_after_super', ['C09'], 'R09.a',
+  (E, "            self.detail = '%s Allowed methods: %r' % (self.detail,\n                                                      method_list)\n        super(MethodNotAllowed, self).__init__(*args, **kwargs)\n",
+      "        super(MethodNotAllowed, self).__init__(*args, **kwargs)\n        if self.allowed_methods:\n            self.detail = 'Allowed methods: %r' % (method_list,)\n"))
